@@ -23,7 +23,7 @@ propagate; the durable stores must succeed before the fail-safe is disarmed (vio
 Idle and zeroes the breadcrumb on every path.
 """
 CLAUSES = ['a: preconditions guard every mutation', 'b: once each, in order (flag table)', 'c: certificates checked before installation',
-           'd: uncommitted fabric state is not persisted', 'e: commit ordering and error propagation', 'f: roll-back restores from storage (fabric and networks, unconditionally)']
+           'd: uncommitted fabric state is not persisted', 'e: commit ordering and error propagation', 'f: roll-back restores from storage (fabric and networks, unconditionally) and gets through when the fabric is gone already']
 NOT_DECIDED = ['equality of the whole configuration before arming and after expiry', 'crash atomicity of individual key-value writes']
 MIN_OBLIGATIONS = {'q': 45, 'd': 40, 'r': 45}
 
